@@ -1,5 +1,5 @@
 //! C01 / C06 / C13 / C14 / C18: prediction on seeded random models against the brute-force linear model.
-use crate::gen::{gen_model, gen_text, gen_text_from_model, reference_scores, reference_tags, ModelData, Rng};
+use crate::gen::{gen_model, gen_text, gen_text_from_model, reference_scores, reference_tag_scores, reference_tags, ModelData, Rng};
 use std::panic::{catch_unwind, AssertUnwindSafe};
 use vaporetto::{CharacterBoundary as B, Model, Predictor, Sentence};
 
@@ -7,7 +7,7 @@ fn desc(arg: &str, what: &str) -> String {
     format!("{{\"replay_arg\":{},\"what\":{}}}", crate::js(arg), crate::js(what))
 }
 
-pub struct Outcome { pub scores: Vec<i32>, pub labels: Vec<u8>, pub n_tags: usize, pub tags: Vec<Option<String>> }
+pub struct Outcome { pub scores: Vec<i32>, pub labels: Vec<u8>, pub n_tags: usize, pub tags: Vec<Option<String>>, pub cands: Vec<(usize, Vec<Vec<(String, i64)>>)> }
 
 pub fn run_real(md: &ModelData, text: &str, predict_tags: bool, roundtrip: bool) -> Result<Outcome, String> {
     let bytes = md.to_bytes();
@@ -27,9 +27,15 @@ pub fn run_real(md: &ModelData, text: &str, predict_tags: bool, roundtrip: bool)
         predictor = p2;
     }
     let mut s = Sentence::from_raw(text.to_string()).map_err(|e| format!("text rejected: {e}"))?;
+    if predict_tags { predictor.store_tag_scores(true); }
     predictor.predict(&mut s);
     if predict_tags { s.fill_tags(); }
+    // candidate scores as reported (score storing on): per token end, per category
+    let cands = if predict_tags {
+        s.iter_tokens().map(|t| (t.end(), t.tag_candidates().into_iter().map(|c| c.into_iter().map(|(a, b)| (a.to_string(), b as i64)).collect()).collect())).collect()
+    } else { vec![] };
     Ok(Outcome {
+        cands,
         scores: s.boundary_scores().to_vec(),
         labels: s.boundaries().iter().map(|b| *b as u8).collect(),
         n_tags: s.n_tags(),
@@ -82,6 +88,13 @@ pub fn case(seed: u64, with_tags: bool, roundtrip: bool, check_tags: bool) -> Op
             let (n_tags, tags) = reference_tags(&md, &text, &wb);
             if n_tags != 0 && (got.n_tags != n_tags || got.tags != tags) {
                 return Some(format!("tags differ on text #{t} {:?}: expected n_tags {} {:?} actual n_tags {} {:?}", text, n_tags, tags, got.n_tags, got.tags));
+            }
+            // when score storing is enabled, the candidate scores reported for each token equal those sums
+            for (end, want_c) in reference_tag_scores(&md, &text, &wb) {
+                let got_c = got.cands.iter().find(|(e, _)| *e == end).map(|(_, c)| c.clone()).unwrap_or_default();
+                if got_c != want_c {
+                    return Some(format!("candidate scores of the token ending at {end} on text #{t} {:?}: expected {:?} actual {:?}", text, want_c, got_c));
+                }
             }
         }
     }
